@@ -23,6 +23,9 @@ CHECKS = {
  "C18": ("model_checking", "E1 + E2 + E3", "bounded-exhaustive enumeration: (schema,value) messages against refpcf+CRC-64-AVRO+refbin, all operation sequences up to a depth on one real writer instance, all single-bit header alterations and truncations against the real readers",
          "Every message of the corpus equals marker + little-endian CRC-64-AVRO of the independently computed canonical form + independently encoded datum; every sequence of good / failing / short-sink writes up to the depth bound on one writer yields standalone messages readable by the generic and typed readers; every single-bit header alteration and every truncation is rejected without reading past the header.",
          "5 C18", "refpcf, CRC-64-AVRO, refbin are independent and self-tested; logical-type schemas excluded from the header part (C12's subject)"),
+ "C07": ("model_checking", "E1 smallscope", "bounded-exhaustive enumeration of (schema, canonical value, one rewrite at one node) candidates, each validated and written through the real datum, single-object and container writers and read back",
+         "For every candidate value (canonical or one de-canonicalising / near-miss rewrite away) of the schema universe: if validation accepts it every validating writer must succeed and the bytes must read back as the same value in canonical form; if validation rejects it every writer must fail and leave no byte. Recorded validation/encoder inconsistencies are reported as known findings by input root-cause pattern.",
+         "5 C07", "the forgetful equality relation `same`; one rewrite per candidate"),
 }
 def main():
     checks = []
